@@ -545,12 +545,13 @@ MEDDLY::ct_tmpl<TTYPE, MONOLITHIC, CHAINED, INTSLOTS>::ct_tmpl(
     */
     tableExpand = CHAINED ? 4*1024 : 512;
     tableShrink = 0;
-    table.resize(1024, 0);
 #if defined(MEDDLY_VERIF) && defined(MEDDLY_VERIF_CT_SIZE)
     // verification hook: small initial hash table (same expand thresholds,
     // scaled) so that bounded model checking sees a small array
     table.resize(MEDDLY_VERIF_CT_SIZE, 0);
     tableExpand = CHAINED ? 4*MEDDLY_VERIF_CT_SIZE : MEDDLY_VERIF_CT_SIZE/2;
+#else
+    table.resize(1024, 0);
 #endif
 
     mstats.incMemUsed(table.size() * sizeof(TTYPE));
